@@ -217,7 +217,7 @@ def run(ctx, res):
 def bit_tested(pc, blp, bitidx):
     """the path condition contains the test ((BLP >> bitidx) & 1) > 0 (as the interpreter's opaque shift/and terms)"""
     for l in pc:
-        if l[0] not in ("le", "ne"):
+        if l[0] not in ("le", "ne", "eq"):
             continue
         for a in atoms_deep(l[1]):
             if a[0] == "mod" and a[2] == 2:
